@@ -934,10 +934,29 @@ def check_output_requests(ctx, d, bases, res):
             reqs.append({'base': bi, 'out': o, 'u': u, 'lines': list(base) + [(f'Units:{o["name"]}', u)]})
     rres = runner.run_many(ctx, [runner.params_to_text(x['lines']) for x in reqs])
     seenk, effective, tables = set(), 0, 0
+    took = []
     for x, r in zip(reqs, rres):
         ch, tch = judge_request(ctx, d, res[x['base']], r, x, seenk)
         effective += ch
         tables += tch
+        if ch:
+            took.append(x)
+    # the same requests in an input file WITHOUT a 'Print Output to Console' line (as tests/examples/example_SHR-1.txt): a request
+    # that changes the report above must change it here too
+    strip = lambda lines: [(k, v) for k, v in lines if k != 'Print Output to Console']
+    again = took[:ctx.n(3, 12)]
+    if again:
+        nres = runner.run_many(ctx, [runner.params_to_text(strip(bases[x['base']])) for x in again] + [runner.params_to_text(strip(x['lines'])) for x in again])
+        for x, b, r in zip(again, nres[:len(again)], nres[len(again):]):
+            y = {**x, 'lines': strip(x['lines'])}
+            if not b['ok'] or not b['report']:
+                continue
+            ch, tch = judge_request(ctx, d, b, r, y, seenk)
+            if r['ok'] and not (ch or tch):
+                ctx.violate('property', f'run-output:directive-dropped:{x["out"]["name"]}', f'"Units:{x["out"]["name"]}, {x["u"]}" changes nothing in the '
+                            f'report when the input has no "Print Output to Console" line (it does when the line is there)',
+                            inp={'part': 'run-output', 'entry': f'Units:{x["out"]["name"]}, {x["u"]}', 'input_file': runner.params_to_text(y['lines']), 'must_change': True})
+        ctx.count('run-output-requests-no-console-line', evaluations=len(again), nontrivial_keys=[(x['out']['name'], x['u']) for x in again])
     ctx.count('run-output-requests', evaluations=len(reqs), nontrivial_keys=[(x['out']['name'], x['u']) for x in reqs], changed_a_report_line=effective, changed_a_table=tables)
 
 
@@ -1004,6 +1023,7 @@ def correspondence(ctx, proofs_ok=True):
     check_convert_loop(ctx, d)
     check_runs(ctx, d)
     more.check_heuristics(me, ctx, d)
+    more.check_echo_lines(me, ctx, d)
     more.check_hip_runs(me, ctx, d)
 
 
@@ -1080,7 +1100,9 @@ def replay(ctx, data):
         print('first differing computed quantity:', diff)
         for x in bad[:10]:
             print('  report:', x)
-        viol = bool(diff or bad)
+        viol = bool(diff or bad) or (inp.get('must_change') and not changed)
+        if inp.get('must_change'):
+            print('report lines changed by the request:', changed)
         print('property', 'VIOLATED' if viol else 'holds', 'on this input')
         return 1 if viol else 0
     if part == 'loop':
